@@ -56,6 +56,7 @@ inductive Pc
   (`mfn` = `msg.fn`) -/
   | fwd (fn : Nat) (j : Nat) (msg : Trxd.TxMsg) (mfn : Nat) (txFreq : Option Int) (ks : List Nat)
       (emit drop : List Trxd.TxMsg) (js : List Nat)
+deriving DecidableEq
 
 /-- global state: the world (shared objects), the clock thread's control state, and what the
 threads have emitted so far -/
